@@ -196,11 +196,17 @@ SRCTIE = {
                                                         "varint_encode32", "BlockWriter", "BlockWriter.insert"]),
     "Grenad.SrcTie.C13Src": ("SrcMeta", ["CompressionType", "CompressionType.from_u8", "MAGIC_V1", "MAGIC_V2", "METADATA_V1_SIZE",
                                          "METADATA_V2_SIZE", "FileVersion", "Metadata", "Metadata.read_from", "Metadata.write_into"]),
+    "Grenad.SrcTie.WriterBuilder": ("SrcWriterBuilder", ["DEFAULT_BLOCK_SIZE", "MIN_BLOCK_SIZE", "WriterBuilder", "WriterBuilder.default", "WriterBuilder.new",
+                                                         "WriterBuilder.block_size_fn", "WriterBuilder.index_key_interval_fn", "WriterBuilder.index_levels_fn", "CompressionType"]),
+    "Grenad.SrcTie.C05Src": ("SrcIter", ["advance_key"]),
+    "Grenad.SrcTie.C10Src": ("SrcMeta", ["CompressionType", "CompressionType.from_u8", "MAGIC_V1", "MAGIC_V2", "METADATA_V1_SIZE",
+                                         "METADATA_V2_SIZE", "FileVersion", "Metadata", "Metadata.read_from"]),
+    "Grenad.SrcTie.C18Src": ("SrcBlockWriter", ["BlockWriter", "BlockWriter.insert", "varint_encode32"]),
     "Grenad.SrcTie.BlockWriter": ("SrcBlockWriter", ["BlockWriter", "BlockWriter.reset", "BlockWriter.current_size_estimate",
                                                      "BlockWriter.insert", "BlockWriter.finish", "varint_encode32"]),
 }
-for _p, _mods in {"C14": ["Varint", "Block", "C14Src"], "C13": ["Meta", "C13Src"], "C10": ["Meta"], "C09": ["Meta", "BlockWriter", "Varint", "C13Src"], "C04": ["IterRange"],
-                  "C05": ["IterPrefix"], "C18": ["BlockWriter"], "C15": ["BlockWriter"], "C01": ["BlockWriter", "Varint", "Meta", "Block"]}.items():
+for _p, _mods in {"C14": ["Varint", "Block", "C14Src"], "C13": ["Meta", "C13Src"], "C10": ["Meta", "C10Src"], "C09": ["Meta", "BlockWriter", "Varint", "C13Src"], "C04": ["IterRange"],
+                  "C05": ["IterPrefix", "C05Src"], "C18": ["BlockWriter", "C18Src"], "C15": ["BlockWriter", "WriterBuilder"], "C01": ["BlockWriter", "Varint", "Meta", "Block"]}.items():
     PROPS[_p]["srctie"] = ["Grenad.SrcTie." + m for m in _mods]
 
 
